@@ -194,4 +194,19 @@ theorem clause_allows_plain (op : SOp) (V : Version) (hV : V.wf = true) (hloc : 
   | ge => simp only [clauseVC, Except.ok.injEq] at h; subst h; simp [VC.allows, VC.allowsPlain, VC.flatten]
   | compat => simp only [clauseVC, Except.ok.injEq] at h; subst h; simp [VC.allows, VC.allowsPlain, VC.flatten]
 
+/-- the fold at the candidate, `==` clauses included (the accumulator may be a single `Version`) -/
+theorem foldClauses_atQ {LoI HiI : List Version} (hnp : NoPoint LoI HiI) (p : Version) (hp : p.wf = true) :
+    ∀ (cs : List Spec.Clause) (acc : VC), acc.QInv LoI HiI p →
+    (∀ d ∈ cs, ∃ c, clauseVC d.op d.lit = .ok c ∧ c.QInv LoI HiI p ∧ c.allowsPlain p = d.contains p) →
+    ∃ res, cs.foldlM (fun acc d => do VC.intersect acc (← clauseVC d.op d.lit)) acc = .ok res ∧
+      res.QInv LoI HiI p ∧ res.allowsPlain p = (acc.allowsPlain p && cs.all (fun d => d.contains p))
+  | [], acc, hc, _ => ⟨acc, rfl, hc, by simp⟩
+  | d :: ds, acc, hc, hds => by
+    obtain ⟨c, hcl, hci, hcs⟩ := hds d (by simp)
+    obtain ⟨r, hr, hri, hrs⟩ := VC.intersect_atQ hnp p hp acc c hc hci
+    obtain ⟨res, h1, h2, h3⟩ := foldClauses_atQ hnp p hp ds r hri (fun e he => hds e (by simp [he]))
+    refine ⟨res, by simp only [List.foldlM_cons, bind, Except.bind, hcl, hr]; exact h1, h2, ?_⟩
+    rw [h3, hrs, hcs]
+    simp [Bool.and_assoc]
+
 end Poetry
